@@ -198,6 +198,18 @@ func init() {
 			} {
 				g.emit(vmCase{"-", p, []string{"2020", "20.5", "x", "1999", "foo"}}.fields()...)
 			}
+			// conditions whose value is neither a comparison nor a match: a float, a string or a length
+			// under `||` and `&&` (the jump instructions see values of every representation)
+			for _, p := range []string{
+				"counter c\n/^(\\w+) procs=(\\d+) load=(\\d+\\.\\d+)$/ {\n  $2 > 100 || $3 {\n    c++\n  }\n}\n",
+				"counter c\n/^(\\w+) procs=(\\d+) load=(\\d+\\.\\d+)$/ {\n  $2 > 100 && $1 {\n    c++\n  }\n}\n",
+				"counter c\n/^(\\w+) procs=(\\d+) load=(\\d+\\.\\d+)$/ {\n  $1 && len($1) {\n    c++\n  }\n}\n",
+				"counter c\n/^(\\w+) procs=(\\d+) load=(\\d+\\.\\d+)$/ {\n  $3 || $2 {\n    c++\n  }\n}\n",
+				"counter c\n/^(\\w+) procs=(\\d+) load=(\\d+\\.\\d+)$/ {\n  len($1) > 3 || strtol($2, 10) {\n    c++\n  }\n}\n",
+				"counter c\n/^(\\w+) procs=(\\d+) load=(\\d+\\.\\d+)$/ {\n  $2 {\n    c++\n  }\n}\n",
+			} {
+				g.emit(vmCase{"-", p, []string{"web1 procs=240 load=0.5", "web2 procs=12 load=1.5", "w procs=0 load=0.0", "nomatch"}}.fields()...)
+			}
 			// every expression that has no value (a pattern, a pattern constant, a call that returns
 			// nothing) in every place that takes a value: each argument of each builtin, an index key,
 			// the text of a match, an operand, an assigned value
